@@ -379,6 +379,11 @@ def run(ctx):
     ctx.run_rule("R5", rule_R5, f)
     ctx.run_rule("R6", rule_R6, f)
     ctx.run_rule("R7", rule_R7, f)
+    # the reported count/sum/buckets of a LATER collection, and of histograms fed by local flushes, rest on the conservation rules of C03
+    from . import C06, hist_conc
+    ctx.rule("R8", "what one collection drains is merged unchanged into the hot shard (shared with C03.R1-R3) and a local batch is handed over as claimed (C03.R2): later collections and "
+                   "local histograms report the same counts and sum as direct observations")
+    ctx.run_rule("R8", lambda c: C06._as(c, "R8", lambda s: hist_conc.rule_C03(s, f)))
     if ctx.tier == "thorough":
         g = ctx.facts("plain")
         ctx.run_rule("R1@plain", lambda c: rule_R1_R2(c, g))
